@@ -234,13 +234,15 @@ def r_occursites(ctx):
     rid = "C09.occursites"
     ctx.rule(rid, "in every match / if-let chain / matches! in src/validator whose patterns name Occur variants, an occurrence shorthand "
                   "and its spelled-out n*m form select the same branch: ? ~ 0*1 ~ *1, * ~ 0* ~ Exact{None,None}, + ~ 1* "
-                  "(pattern-level evaluation; `.take()` scrutinees yield their value once)", floor=20)
+                  "(pattern-level evaluation; `.take()` scrutinees yield their value once)", floor=15)
     f = ctx.facts
     rv = json.load(open(os.path.join(vf.VERIF, "spec", "occur_sites_reviewed.json")))
     reviewed = dict(rv["not_observable"])
     reviewed.update(rv["normalising"])
+    sigs = rv.get("signatures", {})
     for file in ("src/validator/json.rs", "src/validator/cbor.rs", "src/validator/mod.rs"):
         counts = {}
+        sites = []
         for fi, n, kind, conds, vs in occur_units(f, file):
             base = "%s|%s|%s|{%s}" % (file.split("/")[-1], fi.qual, kind, ",".join(sorted(vs)))
             i = counts.get(base, 0)
@@ -248,6 +250,7 @@ def r_occursites(ctx):
             key = "%s#%d" % (base, i)
             res = {}
             bad = []
+            pairs = []
             for a, b in PAIRS:
                 ba, bb = branch_of(conds, a), branch_of(conds, b)
                 res["%s~%s" % (vt.occ_name(a), vt.occ_name(b))] = (ba, bb)
@@ -259,9 +262,26 @@ def r_occursites(ctx):
                         continue
                 if ba != bb:
                     bad.append("%s->branch %d but %s->branch %d" % (vt.occ_name(a), ba, vt.occ_name(b), bb))
+                    pairs.append("%s~%s" % (vt.occ_name(a), vt.occ_name(b)))
             ctx.site(rid, key, file, n["l"], {"variants": sorted(vs), "branches": res})
-            if bad and key not in reviewed:
-                ctx.violation(rid, key, file, n["l"], "%s (%s at this site): %s" % (fi.qual, kind, "; ".join(bad)))
+            sites.append((key, fi, n, kind, sorted(vs), bad, sorted(pairs)))
+        present = {k for k, *_ in sites}
+        used = set()
+        for key, fi, n, kind, vs, bad, pairs in sites:
+            if not bad or key in reviewed:
+                continue
+            # a reviewed site that was rewritten (if-let <-> match <-> matches!) or moved into a helper keeps its review: same file, same
+            # Occur variants named, same pairs of forms told apart, and the reviewed site itself is gone
+            short = file.split("/")[-1]
+            moved = [rk for rk in reviewed if rk.startswith(short + "|") and rk not in present and rk not in used
+                     and rk.split("|")[-1].split("#")[0] == "{%s}" % ",".join(vs) and sigs.get(rk) == pairs]
+            same_fn = [rk for rk in moved if rk.split("|")[1] == fi.qual]
+            pick = (same_fn or moved or [None])[0]
+            if pick is not None:
+                used.add(pick)
+                ctx.site(rid, key + "|reviewed-as", file, n["l"], {"reviewed_site": pick})
+                continue
+            ctx.violation(rid, key, file, n["l"], "%s (%s at this site): %s" % (fi.qual, kind, "; ".join(bad)))
 
 
 def token_sets_of_predicates(f):
